@@ -884,11 +884,14 @@ def translate_bridge_logic():
     arms of the contract-level dispatch convert the response (IntoResponse) and the context (into_empty)."""
     def setup(t):
         t.interior = True
-        t.symbolic_methods = {"emit_msg_wrapper_name", "emit_ctx_dispatch_values"}
-    FOREIGN.update({"crate_module": "call:extern::crate_module"})
+        t.symbolic_methods = {"emit_msg_wrapper_name", "emit_ctx_dispatch_values", "as_accessor_name", "emit_ep_name", "span"}
+    FOREIGN.update({"crate_module": "call:extern::crate_module", "Ident::new": "Ident::new"})
     kv = fetch_ast(os.path.join(common.REPO, "sylvia-derive", "src", "types", "interfaces.rs"))
     known = {"push", "extern::crate_module"}
-    out = translate_methods("types/interfaces.rs", {"Interfaces": ["emit_dispatch_arms"]}, setup=setup, kv=kv, extra_known=known)
+    out = translate_methods("types/interfaces.rs", {"Interfaces": ["emit_dispatch_arms", "emit_glue_message_variants", "emit_glue_message_types",
+                                                                   "emit_messages_call", "emit_deserialization_attempts",
+                                                                   "emit_response_schemas_calls"]},
+                            setup=setup, kv=kv, extra_known=known)
 
     def setup2(t):
         t.interior = True
